@@ -17,6 +17,7 @@ struct ModelTraits {
 	bool serialization = false;  // SAVE/LOAD operations are available in this build
 	bool tracked       = true;   // element type reports its moved-from state (Tracked*)
 	bool mpi           = false;  // MSG_PACK / MSG_XFER operations are available in this build
+	bool assign_throws   = false;  // trivial element type whose copy assignment can fail (sim::TrivA)
 	bool tracked_is_triv = false;  // the element type is sim::Triv (a struct holding exactly one i64)
 	bool always_equal  = false;  // allocator is_always_equal: one arena only
 	bool ctor_default_inits = false;  // the allocator's construct(p) default-initialises: array(extents) leaves scalar members unwritten
